@@ -1,3 +1,4 @@
 pub mod bdl;
 pub mod jsonmut;
 pub mod model;
+pub mod sysxml;
